@@ -12,7 +12,7 @@ import (
 	"unsafe"
 )
 
-var __ghostWindow = []int64{-1, 0, 1, 2, 3, 4, 5, 6, 7, 8}
+var __ghostWindow = []int64{-1, 0, 1, 2, 3, 4, 5, 6, 7, 8, 9, 10, 100, 4095, 4096, 4097, 2147483647, 4294967293, 4294967294, 4294967295}
 
 func __ghostDomain[T any]() []T {
 	var v T
